@@ -17,6 +17,8 @@
 mod charstring;
 #[path = "c02/stress.rs"]
 mod stress;
+#[path = "c02/sweep.rs"]
+mod sweep;
 
 use fv_harness::common::*;
 use read_fonts::types::{F2Dot14, GlyphId, Tag};
@@ -2191,6 +2193,10 @@ fn child_request(line: &str) -> String {
         }
         "stress" => stress::child(&t[1..]),
         "hintmap" => stress::hintmap_child(&t[1..]),
+        "ttsweep" | "metamut" | "fvarsyn" => match catch(|| sweep::child(t[0], &t[1..])) {
+            Ok(r) => r,
+            Err(m) => format!("panic at=[{}] {}", last_loc(), m.replace('\n', " ")),
+        },
         "ift-bigcap" if t.len() == 2 => ift_bigcap_case(t[1].parse().unwrap_or(29)),
         "brotli" if t.len() == 2 => {
             let seed: u64 = t[1].parse().unwrap_or(0);
@@ -2682,13 +2688,22 @@ fn run(cfg: &Config, s: &mut Session) {
     let reqs: Vec<String> = sj.iter().map(|j| j.req.clone()).collect();
     let res = run_jobs(&reqs, cap, nworkers);
     for (j, r) in sj.iter().zip(res.iter()) {
-        let fam = if j.req.starts_with("hostile ") { "ttlimit" } else { j.req.split_whitespace().nth(1).unwrap_or("?") };
+        let fam = if j.req.starts_with("hostile ") {
+            "ttlimit"
+        } else if !j.req.starts_with("stress ") {
+            j.req.split_whitespace().next().unwrap_or("?")
+        } else {
+            j.req.split_whitespace().nth(1).unwrap_or("?")
+        };
         let class = r.split_whitespace().next().unwrap_or("?");
         s.count(&format!("stress:{fam}:{class}"));
         let ok = r.starts_with("ok");
         let site = r.split("at=[").nth(1).and_then(|x| x.split(']').next()).unwrap_or("-").to_string();
         let req: String = if j.req.len() > 3000 { format!("{}…({} chars)", &j.req[..3000], j.req.len()) } else { j.req.clone() };
-        s.oracle(j.oracle, ok, || format!("{req} :: at={site} :: kind={class}"), || r.chars().take(400).collect());
+        // sweep jobs run thousands of programs / mutants: the first failing one (program hex / mutation + replay) is
+        // part of the input
+        let first: String = r.split(" ;; ").nth(1).map(|d| format!(" :: first=[{}]", d.chars().take(700).collect::<String>())).unwrap_or_default();
+        s.oracle(j.oracle, ok, || format!("{req} :: at={site} :: kind={class}{first}"), || r.chars().take(1200).collect());
     }
 }
 
@@ -2707,6 +2722,9 @@ fn stress_jobs(rng: &mut Rng, thorough: bool) -> Vec<stress::Job> {
     sj.extend(stress::iftapply_jobs(thorough));
     sj.extend(stress::gsubnest_jobs(thorough));
     sj.extend(stress::cfffd_jobs(thorough));
+    sj.extend(sweep::ttsweep_jobs(thorough));
+    sj.extend(sweep::metamut_jobs(thorough));
+    sj.extend(sweep::fvarsyn_jobs());
     sj
 }
 
